@@ -89,8 +89,8 @@ func runC08(ctx *core.Ctx, out *core.Out) {
 	}
 	fromClient := r.Bool()
 	comp := r.Chance(1, 4)
-	st := genStream(r, StreamOpts{FromClient: fromClient, Comp: comp, MaxMsgs: 4, MaxSize: 600, Controls: true, CtlDen: 2, Close: r.Chance(2, 3)})
-	ex := rdExec{RB: r.BufSize(), Chunk: r.Intn(xport.NChunkStyles), Mode: r.Intn(3), Server: fromClient, Comp: comp}
+	st := genStream(r, StreamOpts{FromClient: fromClient, Comp: comp, MaxMsgs: 4, MaxSize: 600, Controls: true, CtlDen: 2, Close: r.Chance(2, 3), LongRuns: true})
+	ex := rdExec{RB: r.BufSize(), Chunk: r.Intn(xport.NChunkStyles), Mode: r.Intn(4), Server: fromClient, Comp: comp} // 3 = everything through JoinMessages
 	if ex.Mode == 2 {
 		for i := range st.DataEvents() {
 			if r.Bool() {
@@ -278,7 +278,42 @@ func c08ExecH(ctx *core.Ctx, out *core.Out, st *Stream, ex rdExec, failAt int, h
 	var termErr error
 	delivered := make([][]byte, len(exp)+1)
 	mi := 0
-	for ; mi <= len(exp); mi++ {
+	if ex.Mode == 3 {
+		// the whole stream through JoinMessages (empty terminator): the bytes are attributed to
+		// the messages by their known lengths; the terminal error is the join reader's
+		jr := ws.JoinMessages(c, "")
+		buf := make([]byte, r.Range(1, 200))
+		off := 0
+		for spins := 0; termErr == nil; spins++ {
+			n, e := jr.Read(buf)
+			for p := 0; p < n; {
+				for mi < len(exp) && off == len(exp[mi].Data) {
+					mi, off = mi+1, 0
+				}
+				if mi >= len(exp) {
+					return fail("extra-message", fmt.Sprintf("JoinMessages delivered %d bytes beyond the messages the stream encodes", n-p), log)
+				}
+				k := len(exp[mi].Data) - off
+				if k > n-p {
+					k = n - p
+				}
+				add(c08Ev{Kind: "data", Msg: mi, Off: off, N: k})
+				delivered[mi] = append(delivered[mi], buf[p:p+k]...)
+				p, off = p+k, off+k
+			}
+			if e != nil {
+				termErr = e
+			}
+			if spins > 1<<20 {
+				return fail("no-terminal-error", "the JoinMessages reader never failed", log)
+			}
+		}
+		for mi < len(exp) && off == len(exp[mi].Data) {
+			mi, off = mi+1, 0
+		}
+		out.Count("streams_read_through_joinmessages", 1)
+	}
+	for ; ex.Mode != 3 && mi <= len(exp); mi++ {
 		t, nr, err := c.NextReader()
 		if err != nil {
 			termErr = err
